@@ -264,6 +264,17 @@ func c09Conn(srv *svc.Server, cid int, seed uint64, nframes int) (viol [][2]stri
 			break
 		}
 	}
+	// ... and every message handed to the WRITE callback still carries the bytes it carried then (the frame that was sent)
+	for _, e := range rec.WriterLog() {
+		if e.Raw == nil {
+			continue
+		}
+		c09WriteMsgs.Add(1)
+		if !bytes.Equal(e.Raw, e.Data) {
+			bad("stable|frame bytes of a message handed to the write callback changed afterwards", fmt.Sprintf("conn %d platform serial %d: at the callback %s, after the connection closed %s", cid, e.PSeq, core.HexCap(e.Data, 24), core.HexCap(e.Raw, 24)))
+			break
+		}
+	}
 	checked += k
 	if firstWasUpload {
 		k-- // the upload that opened the connection is one more complete message
@@ -520,6 +531,7 @@ func c09Socket(c *core.Collector, x *Ctx) {
 	c.Count("socket_connections_quiet_for_5_5_s_after_their_lone_fragment", c09QuietAfterFragment.Load())
 	c.Count("socket_join_and_notsupported_messages_rechecked", c09EventMsgs.Load())
 	c.Count("socket_messages_of_unfinished_transfers_rechecked_after_close", c09UnfinishedMsgs.Load())
+	c.Count("socket_write_callback_messages_rechecked_after_close", c09WriteMsgs.Load())
 	c.Floor("socket_reassembled_transfers_completed_by_a_later_packet", 50)
 	c.Floor("socket_messages_of_unfinished_transfers_rechecked_after_close", 20)
 	d, tot := svc.SitesHit()
@@ -528,7 +540,7 @@ func c09Socket(c *core.Collector, x *Ctx) {
 	c.Floor("messages_rechecked_after_close", 500)
 }
 
-var c09UnfinishedMsgs atomic.Int64
+var c09UnfinishedMsgs, c09WriteMsgs atomic.Int64
 
 // c09Unfinished: the connection ends while sub-packaged transfers are still incomplete, and their packets had been handed to the
 // application: packet 1 as the message the connection joined with, packets of an ID without handler through the not-supported
